@@ -4,15 +4,30 @@ CFG = {'assumptions': ['the section is in the property domain: 0 <= off, 0 <= n,
                  'Seek/WriteAt offsets are int64 values; whence is any int'],
  'files': ['iohelper/iohelper.go'],
  'go': {'iohelper.SectionWriter': 'iohelper.NewSectionWriter + (*SectionWriter).Write/WriteAt/Seek/Size (one whole call sequence per case)',
-        'iohelper.AtToWriter': 'iohelper.AtToWriter + Write/WriteAt/Seek/Size through the interfaces of the returned value'},
+        'iohelper.AtToWriter': 'iohelper.AtToWriter + Write/WriteAt/Seek/Size through the interfaces of the returned value',
+        'iohelper.AtToReader': 'iohelper.AtToReader + Read (io.SectionReader of the Go library underneath) over the in-memory file of the harness',
+        'iohelper.File': 'iohelper.NewSectionWriter / AtToWriter call sequence over the in-memory file of the harness, the file content afterwards, '
+                         'then iohelper.AtToReader + Read over the same file',
+        'iohelper.TwoSections': 'two iohelper.NewSectionWriter over ONE in-memory file, their Write/WriteAt/Seek/Size calls interleaved, '
+                                'and the file content afterwards'},
  'rule': 'one case = one whole call sequence on a fresh section over a scripted mock io.WriterAt; every return value and '
          'every (absolute offset, bytes) the mock receives is observed per call. Cases = all sequences of 1..2 calls from '
          'a 36-call alphabet followed by Write(2) on sections n in 0..3 with the first underlying call answered by '
          'full / short+error / zero+error / short+nil + random sequences of 1..60 calls (sections incl. n = 0, n = 1, '
          'reaching 2^63-1, AtToWriter; buffers empty / ending exactly at the limit / one short / crossing it; WriteAt at '
          '-1, n-1, n, n+1, +-2^63; Seek with every whence incl. invalid, targets around 0, the start, the end and '
-         '2^63-1; fault streams none / occasional / heavy). A sequence is non-trivial when at least two calls reached '
+         '2^63-1; fault streams none / occasional / heavy) + sequences of 3..6 calls with large buffers (49..5000 bytes, around every power of two up to 4096, occasionally 65535..65537) on sections ending one before / at / one after the buffer end. A sequence is non-trivial when at least two calls reached '
          'the underlying writer and a Write was issued after the cursor had moved; shape key = set of events '
          '(refused-at-end, truncated, exact-fit, empty, WriteAt refused/truncated/exact, whence error, negative target, '
          'overflow target, successful seek per whence, cursor beyond end, short count, underlying error) x (n = 0?)',
+ 'rule_widening': 'widening ops: iohelper.AtToReader = read sequences (1..12 Reads, lengths 0 / to the file end -1/0/+1 / 64..4096) '
+                  'through AtToReader over an in-memory file of 0..1200 bytes at offsets inside / at / beyond the file end and at 2^63-1-{0..5}, the file '
+                  'delivering normally / short / with errors; non-trivial when data is delivered by a Read issued after the position moved. '
+                  'iohelper.File = a section-writer call sequence (1..14 calls, positions below ~10^4) over an in-memory file with 0..400 initial bytes, '
+                  'the file content afterwards and a read-back through AtToReader from the section start / nearby / 0 / the file end; non-trivial when '
+                  'at least one byte was stored and one read back; key = section class x store events (gap zero-filled / extends / inside) x writer '
+                  'events x reader events. '
+                  'iohelper.TwoSections = two section writers over one in-memory file with interleaved calls (2..24 calls, sections adjacent / '
+                  'disjoint / overlapping / identical / second before first, n incl. 0 and 2^63-1-off, shared fault script); non-trivial when both '
+                  'writers stored bytes and the calls switched writer at least twice; key = section configuration x store events x writer events',
  'shrink_s': 30}
